@@ -118,6 +118,13 @@ pub struct Monitors {
     height_reads_max: u32,
     pub poll_gaps_ms: Vec<u64>,
     last_poll_answered_ms: Option<u64>,
+    first_list_answered: bool,
+    changed_after_list: bool,
+    poll_outstanding: bool,
+    todo_panics: u32,
+    pub stale_heights: u32,
+    pub failed_polls: u32,
+    last_pay_outcome: String,
 }
 
 fn sig(kind: &str, extra: Value) -> Value {
@@ -153,6 +160,13 @@ impl Monitors {
             height_reads_max: 0,
             poll_gaps_ms: vec![],
             last_poll_answered_ms: None,
+            first_list_answered: false,
+            changed_after_list: false,
+            poll_outstanding: false,
+            todo_panics: 0,
+            stale_heights: 0,
+            failed_polls: 0,
+            last_pay_outcome: String::new(),
         };
         for (i, c) in classes.iter().enumerate() {
             m.add_htlc(scn, i, c.clone());
@@ -337,11 +351,48 @@ impl Monitors {
             self.cur_win = rec.win;
         }
         let cfg = scn.cfg.clone();
+        if scn.manual_getinfo {
+            // C20: while the watcher runs, the next poll request arrives within 60 s of the previous answer
+            if let (Some(prev), false) = (self.last_poll_answered_ms, self.poll_outstanding) {
+                if rec.t_ms > prev + 62_000 && rec.life == self.life && !matches!(rec.ev, Ev::RpcArrive { .. }) {
+                    self.v("C20", "poll_overdue", format!("no getinfo poll within 62 s of the previous answer (answered at {prev} ms, now {} ms)", rec.t_ms), json!({}));
+                    self.last_poll_answered_ms = None;
+                }
+            }
+            match &rec.ev {
+                Ev::RpcArrive { method, .. } if method == "getinfo" => {
+                    if let Some(prev) = self.last_poll_answered_ms {
+                        let gap = rec.t_ms.saturating_sub(prev);
+                        self.poll_gaps_ms.push(gap);
+                        if gap > 62_000 {
+                            self.v("C20", "poll_late", format!("poll request arrived {gap} ms after the previous answer"), json!({}));
+                        }
+                    }
+                    self.poll_outstanding = true;
+                }
+                Ev::RpcAnswer { method, ok, .. } if method == "getinfo" => {
+                    self.poll_outstanding = false;
+                    self.last_poll_answered_ms = Some(rec.t_ms);
+                    if !*ok {
+                        self.failed_polls += 1;
+                    }
+                }
+                Ev::HeightTold { h, .. } => {
+                    if *h <= self.told_height && self.told_height > 0 {
+                        self.stale_heights += 1;
+                    }
+                }
+                _ => {}
+            }
+        }
         match &rec.ev {
             Ev::LifetimeStart => {
                 self.stats.lifetimes += 1;
                 self.life = rec.life;
                 self.told_height = 0;
+                self.height_reads_max = 0;
+                self.last_poll_answered_ms = None;
+                self.poll_outstanding = false;
                 for (_, t) in self.tracks.iter_mut() {
                     t.held.clear();
                     t.lc = Lifecycle::default();
@@ -367,12 +418,7 @@ impl Monitors {
                     self.stats.height_changes += 1;
                 }
                 self.told_height = self.told_height.max(*h);
-                if *via == "getinfo" {
-                    if let Some(prev) = self.last_poll_answered_ms {
-                        self.poll_gaps_ms.push(rec.t_ms.saturating_sub(prev));
-                    }
-                    self.last_poll_answered_ms = Some(rec.t_ms);
-                }
+                let _ = via;
             }
             Ev::NodeHeight { .. } => {}
             Ev::Deliver { h, replay } => {
@@ -566,6 +612,9 @@ impl Monitors {
             Ev::Panic { msg } => {
                 self.stats.panics += 1;
                 let is_todo = msg.contains("not yet implemented");
+                if is_todo {
+                    self.todo_panics += 1;
+                }
                 self.v("C06", "task_panicked", format!("a plugin task panicked: {msg}"), json!({"where": "task", "todo": is_todo}));
             }
             Ev::RpcArrive { uid, method, params, hash } => {
@@ -716,7 +765,8 @@ impl Monitors {
                     }
                     if let Some(h) = hash {
                         let code = reply["error"]["code"].as_i64().unwrap_or(0);
-                        let d = if method == "datastore" { format!("datastore write {}", if *applied { "applied-but-error" } else { "rejected" }) } else { format!("{method} error {code}") };
+                        let _ = code;
+                        let d = if method == "datastore" { format!("write_fault:{}", if *applied { "applied_but_error" } else { "rejected" }) } else { format!("read_fault:{method}") };
                         self.fault_ctx.insert(*h, d);
                         if let Some(t) = self.tracks.get_mut(h) {
                             t.lc.tainted = true;
@@ -726,10 +776,27 @@ impl Monitors {
                 if !*ok && !*fault && method == "datastore" {
                     if let Some(h) = hash {
                         let code = reply["error"]["code"].as_i64().unwrap_or(0);
-                        self.fault_ctx.insert(*h, format!("datastore error {code} (genuine, not injected)"));
+                        self.fault_ctx.insert(*h, format!("genuine_error:datastore:{code}"));
                         if let Some(t) = self.tracks.get_mut(h) {
                             t.lc.genuine_error = Some(code);
                         }
+                    }
+                }
+                if method == "listsendpays" {
+                    self.first_list_answered = true;
+                }
+                if method == "pay" {
+                    let live_after = hash.map(|h| s.node.live(&h)).unwrap_or(false);
+                    if live_after {
+                        self.stats.pay_left_live += 1;
+                    }
+                    self.last_pay_outcome = if *ok {
+                        format!("result status={} warning={}", reply["result"]["status"].as_str().unwrap_or("?"), reply["result"].get("warning_partial_completion").is_some())
+                    } else {
+                        format!("error code={}", reply["error"]["code"])
+                    };
+                    if *ok && reply["result"].get("payment_hash").is_none() {
+                        self.last_pay_outcome = "unparsable result".into();
                     }
                 }
                 let Some(hash) = hash else { return };
@@ -782,6 +849,9 @@ impl Monitors {
                 self.check_c08_invariant(s);
             }
             Ev::PartResolved { status, .. } => {
+                if self.first_list_answered {
+                    self.changed_after_list = true;
+                }
                 if *status == PartStatus::Complete {
                     self.stats.parts_completed += 1;
                 }
@@ -795,7 +865,64 @@ impl Monitors {
                     self.v("C10", "wrong_payee_in_notification", format!("failure notification for hash {} names payee {payee}, the invoice {} verifies against {want}", hex::encode(&hash[..4]), &invoice[..20.min(invoice.len())]), json!({}));
                 }
             }
-            Ev::CallResult { .. } | Ev::HeightRead { .. } => {}
+            Ev::CallResult { call, result } => {
+                self.stats.calls_done += 1;
+                self.mix(70);
+                let d = scn.direct.get(*call).cloned();
+                let (pay, is_wait) = match d {
+                    Some(Direct::WaitPayment(p)) => (p as usize, true),
+                    Some(Direct::Pay(p)) => (p as usize, false),
+                    None => return,
+                };
+                let spec = &scn.payments[pay % scn.payments.len()];
+                let hash = spec.hash();
+                let pre = hex::encode(spec.preimage_bytes());
+                let parts: Vec<(usize, PartStatus)> = s.node.parts.iter().filter(|p| p.hash == hash).map(|p| (p.uid, p.status)).collect();
+                let live = s.node.live(&hash) || Self::pay_running_for(s, &hash) > 0;
+                let complete = s.node.has_complete(&hash);
+                let prop = if is_wait { "C15" } else { "C16" };
+                let name = if is_wait { "wait_payment" } else { "pay" };
+                if result.get("panic").is_some() {
+                    self.v(prop, "call_panicked", format!("{name} panicked; parts {parts:?}"), json!({}));
+                } else if let Some(p) = result.get("ok_some").or(result.get("ok")).and_then(|p| p.as_str()) {
+                    if !complete || p != pre {
+                        self.v(prop, "success_without_completed_part", format!("{name} returned preimage {p} but parts are {parts:?} (true preimage {pre})"), json!({}));
+                    }
+                } else if result.get("ok_none").is_some() {
+                    if live {
+                        self.v(prop, "none_while_pending_or_complete", format!("wait_payment returned 'no payment' while parts are {parts:?}"), json!({}));
+                    }
+                } else if let Some(e) = result.get("err").and_then(|e| e.as_str()) {
+                    if is_wait {
+                        self.v(prop, "wait_aborted_with_error", format!("wait_payment returned Err({e}) although no RPC-level error was injected; parts {parts:?}"), json!({"live": live}));
+                    } else if live {
+                        self.v(
+                            prop,
+                            "failure_while_pending_or_complete",
+                            format!("pay returned Err({e}) while parts are {parts:?}; pay outcome was {}", self.last_pay_outcome),
+                            json!({"pay_outcome": self.last_pay_outcome}),
+                        );
+                    }
+                }
+                if self.changed_after_list {
+                    self.stats.part_changed_during_wait += 1;
+                }
+            }
+            Ev::HeightRead { h } => {
+                self.mix(80);
+                if *h != self.told_height {
+                    self.v(
+                        "C20",
+                        "height_not_max_of_told",
+                        format!("current_height() = {h} but the maximum height told in this lifetime is {}", self.told_height),
+                        json!({"lower": *h < self.told_height}),
+                    );
+                }
+                if *h < self.height_reads_max {
+                    self.v("C20", "height_decreased", format!("current_height() went from {} to {h}", self.height_reads_max), json!({}));
+                }
+                self.height_reads_max = self.height_reads_max.max(*h);
+            }
             Ev::ProbeStart { h } => {
                 self.probe_htlcs.insert(*h);
                 let any_pending = self.tracks.keys().any(|k| s.node.stored_state(k).0 == "Pending");
@@ -853,12 +980,12 @@ impl Monitors {
                 self.stats.hung += 1;
                 let hash = self.info[h].hash;
                 let ctx = self.fault_ctx.get(&hash).cloned().unwrap_or_else(|| "none".into());
-                let panicked = self.stats.panics > 0;
+                let panicked = self.todo_panics > 0 && self.stats.panics == self.todo_panics;
                 self.v(
                     "C06",
                     "htlc_never_answered",
                     format!("HTLC {h} ({:?}) still unanswered after the fair drain (pending RPCs: {:?}, panics: {})", scn.htlcs[h].meta, s.pending.iter().map(|r| r.method.clone()).collect::<Vec<_>>(), self.stats.panics),
-                    json!({"injected_fault": ctx, "after_panic": panicked}),
+                    json!({"injected_fault": ctx, "after_todo_panic_only": panicked}),
                 );
             }
         }
